@@ -27,7 +27,7 @@ use hipstr::path::HipPath;
 use hipstr::string::HipStr;
 use hipstr::{Arc, Backend, Rc, Unique};
 use hipverif_harness::alloc;
-use hipverif_harness::util::{hex, parse_cli, unhex, LeanDriver, Rng};
+use hipverif_harness::util::{hex, parse_cli, unhex, Rng};
 
 #[global_allocator]
 static GLOBAL: alloc::Tracking = alloc::Tracking;
@@ -37,6 +37,54 @@ const ICAP: usize = 23;
 const REAL_CEIL: u64 = u64::MAX - 1;
 /// `rel` announced to the model for a probe in unrelated memory
 const FOREIGN_REL: usize = 1 << 40;
+
+/// The Lean line-protocol driver as a child process.  Same protocol as
+/// `hipverif_harness::util::LeanDriver` (one line in, one line out) but PIPELINED: a whole
+/// sequence is written, then all the answers are read (one context switch per sequence instead
+/// of one per line).  A batch must stay below the pipe capacity (64 KiB): sequences are ~10 KiB.
+struct LeanDriver {
+    child: std::process::Child,
+    stdin: std::process::ChildStdin,
+    stdout: std::io::BufReader<std::process::ChildStdout>,
+}
+
+impl LeanDriver {
+    fn spawn(path: &str) -> std::io::Result<Self> {
+        use std::process::{Command, Stdio};
+        let mut child = Command::new(path).stdin(Stdio::piped()).stdout(Stdio::piped()).stderr(Stdio::inherit()).spawn()?;
+        let stdin = child.stdin.take().unwrap();
+        let stdout = std::io::BufReader::new(child.stdout.take().unwrap());
+        Ok(LeanDriver { child, stdin, stdout })
+    }
+    fn batch(&mut self, lines: &[String]) -> std::io::Result<Vec<String>> {
+        use std::io::{BufRead, Write};
+        let mut out = Vec::with_capacity(lines.len());
+        for chunk in lines.chunks(48) {
+            let text = chunk.join("\n") + "\n";
+            assert!(text.len() < 60_000, "batch larger than the pipe capacity");
+            self.stdin.write_all(text.as_bytes())?;
+            self.stdin.flush()?;
+            for _ in chunk {
+                let mut l = String::new();
+                if self.stdout.read_line(&mut l)? == 0 {
+                    return Err(std::io::Error::new(std::io::ErrorKind::UnexpectedEof, "lean driver closed its output"));
+                }
+                while l.ends_with('\n') || l.ends_with('\r') {
+                    l.pop();
+                }
+                out.push(l);
+            }
+        }
+        Ok(out)
+    }
+}
+
+impl Drop for LeanDriver {
+    fn drop(&mut self) {
+        let _ = self.child.kill();
+        let _ = self.child.wait();
+    }
+}
 
 fn profile() -> &'static str {
     if cfg!(debug_assertions) {
@@ -1138,10 +1186,23 @@ struct Session<'l, T: Subject> {
     step_no: usize,
     applied: Vec<String>,
     leaked_guards: usize,
+    /// lines not yet sent to the model (header first), and what the implementation/oracle did
+    queue: Vec<String>,
+    pending: Vec<Pending>,
+}
+
+/// the implementation's and the oracle's side of one step, compared with the model at `flush`
+struct Pending {
+    step: usize,
+    ret: String,
+    ev_s: String,
+    obs: Vec<(usize, Vec<String>)>,
+    exp: Exp,
+    oracle: Vec<Option<String>>,
 }
 
 impl<'l, T: Subject> Session<'l, T> {
-    fn new(hdr: &Hdr, mut lean: Option<&'l mut LeanDriver>) -> Result<Self, String> {
+    fn new(hdr: &Hdr, lean: Option<&'l mut LeanDriver>) -> Result<Self, String> {
         alloc::set_mode(alloc::OFF);
         if alloc::registered() != 0 {
             return Err("internal: block table not empty at sequence start".into());
@@ -1149,14 +1210,7 @@ impl<'l, T: Subject> Session<'l, T> {
         let _ = alloc::take_events();
         let _ = alloc::take_violations();
         let srcs: Vec<&'static [u8]> = hdr.srcs.iter().enumerate().map(|(i, s)| intern_src(i, s)).collect();
-        if let Some(l) = lean.as_deref_mut() {
-            for line in hdr.lines().iter().skip(1) {
-                let r = l.ask(line).map_err(|e| format!("lean driver: {e}"))?;
-                if r != "ok" {
-                    return Err(format!("lean driver rejected `{line}`: {r}"));
-                }
-            }
-        }
+        let queue: Vec<String> = if lean.is_some() { hdr.lines().into_iter().skip(1).collect() } else { vec![] };
         let unique = hdr.backend == "unique";
         Ok(Session {
             hdr: hdr.clone(),
@@ -1171,6 +1225,8 @@ impl<'l, T: Subject> Session<'l, T> {
             step_no: 0,
             applied: vec![],
             leaked_guards: 0,
+            queue,
+            pending: vec![],
         })
     }
 
@@ -1932,84 +1988,17 @@ impl<'l, T: Subject> Session<'l, T> {
             obs.iter().map(|(i, f)| format!("h{i}={}", f.join(","))).collect::<Vec<_>>().join(" ")
         );
 
-        // 4. model and spec
-        if let Some(l) = self.lean.as_deref_mut() {
-            let ans = l.ask(&line).map_err(|e| format!("lean driver: {e}"))?;
-            let Some((m, s)) = ans.split_once(" || ") else {
-                return Err(format!("lean driver answered `{ans}` to `{line}`"));
-            };
-            let (mhead, mpool) = m.split_once(" |").unwrap_or((m, ""));
-            let mut mret = "";
-            let mut mev = "";
-            for t in mhead.split_whitespace() {
-                if let Some(r) = t.strip_prefix("ret=") {
-                    mret = r;
-                }
-                if let Some(r) = t.strip_prefix("ev=") {
-                    mev = r;
-                }
-            }
-            if mret != ret {
-                add("impl-vs-model", "ret".into(), format!("ret={mret}"), format!("ret={ret}"));
-            }
-            if mev != ev_s {
-                add("impl-vs-model", "ev".into(), format!("ev={mev} (alloc-inner,free-inner,alloc-buf,free-buf,grow-buf)"), format!("ev={ev_s}"));
-            }
-            // handles
-            let mut mh: Vec<(usize, Vec<String>)> = vec![];
-            for t in mpool.split_whitespace() {
-                let Some((name, rest)) = t.split_once('=') else { continue };
-                let idx: usize = name.trim_start_matches('h').parse().map_err(|_| format!("bad handle in `{ans}`"))?;
-                let mut f: Vec<String> = rest.split(',').map(str::to_string).collect();
-                if f.len() != 10 {
-                    return Err(format!("bad handle fields in `{ans}`"));
-                }
-                f.pop(); // taint: model only
-                if f[6].starts_with('b') {
-                    f[6] = canon(&mut self.model_blk, &f[6].clone());
-                }
-                mh.push((idx, f));
-            }
-            for i in 0..SLOTS {
-                let a = mh.iter().find(|(k, _)| *k == i).map(|x| &x.1);
-                let b = obs.iter().find(|(k, _)| *k == i).map(|x| &x.1);
-                match (a, b) {
-                    (Some(a), Some(b)) => {
-                        if let Some(k) = (0..9).find(|&k| a[k] != b[k]) {
-                            add("impl-vs-model", format!("obs:{}", FIELD_NAMES[k]), format!("h{i}={}", a.join(",")), format!("h{i}={}", b.join(",")));
-                        }
-                    }
-                    (None, None) => {}
-                    (a, b) => add("impl-vs-model", "obs:liveness".into(), format!("h{i} live={}", a.is_some()), format!("h{i} live={}", b.is_some())),
-                }
-            }
-            // spec vs std
-            let (shead, spool) = s.split_once(" |").unwrap_or((s, ""));
-            let sret = shead.split_whitespace().find_map(|t| t.strip_prefix("ret=")).unwrap_or("");
-            let sret_ok = match &exp {
-                Exp::Exact(e) => e == sret,
-                Exp::SliceErr => sret.starts_with("err:"),
-                Exp::AnyNat => sret.starts_with("nat:"),
-            };
-            if !sret_ok {
-                add("spec-vs-std", "ret".into(), exp.show(), sret.to_string());
-            }
-            let mut sp: Vec<Option<String>> = vec![None; SLOTS];
-            for t in spool.split_whitespace() {
-                if let Some((name, v)) = t.split_once('=') {
-                    if let Ok(i) = name.trim_start_matches('p').parse::<usize>() {
-                        if i < SLOTS {
-                            sp[i] = Some(v.to_string());
-                        }
-                    }
-                }
-            }
-            for i in 0..SLOTS {
-                let e = self.oracle[i].as_ref().map(|v| hex(v));
-                if e != sp[i] {
-                    add("spec-vs-std", "content".into(), format!("p{i}={}", e.unwrap_or("none".into())), format!("p{i}={}", sp[i].clone().unwrap_or("none".into())));
-                }
-            }
+        // 4. model and spec: deferred to `flush` (pipelined)
+        if self.lean.is_some() {
+            self.queue.push(line.clone());
+            self.pending.push(Pending {
+                step,
+                ret: ret.clone(),
+                ev_s: ev_s.clone(),
+                obs: obs.clone(),
+                exp: exp.clone(),
+                oracle: self.oracle.iter().map(|o| o.as_ref().map(|v| hex(v))).collect(),
+            });
         }
 
         // classification of the outcome for the statistics
@@ -2026,20 +2015,119 @@ impl<'l, T: Subject> Session<'l, T> {
             outcome: format!("{post}/{rclass}/{}", if eclass.is_empty() { "noalloc".into() } else { eclass }),
             impl_line: format!("{line}  =>  {impl_line}"),
         };
-        // priority: monitor > impl-vs-oracle > impl-vs-model > spec-vs-std
-        let rank = |k: &str| match k {
-            "monitor" => 0,
-            "impl-vs-oracle" => 1,
-            "impl-vs-model" => 2,
-            _ => 3,
-        };
         dis.sort_by_key(|d| rank(d.kind));
         Ok(StepRes::Done(info, dis.into_iter().next()))
     }
 
-    /// End of the sequence: drop every handle, then allocator balance / red zones / poison.
-    fn finish(mut self) -> Option<Dis> {
+    /// Sends the queued lines to the model, compares every pending step; the first (lowest
+    /// step, then highest priority) disagreement is returned.
+    fn flush(&mut self) -> Result<Option<Dis>, String> {
+        let Some(l) = self.lean.as_deref_mut() else { return Ok(None) };
+        if self.queue.is_empty() {
+            return Ok(None);
+        }
+        let lines = std::mem::take(&mut self.queue);
+        let answers = l.batch(&lines).map_err(|e| format!("lean driver: {e} (last lines sent: {:?})", &lines[lines.len().saturating_sub(3)..]))?;
+        let pending = std::mem::take(&mut self.pending);
+        let nhdr = lines.len() - pending.len();
+        for (line, a) in lines.iter().zip(&answers).take(nhdr) {
+            if a != "ok" {
+                return Err(format!("lean driver rejected `{line}`: {a}"));
+            }
+        }
+        let mut dis: Vec<Dis> = vec![];
+        for (k, pd) in pending.iter().enumerate() {
+            let (line, ans) = (&lines[nhdr + k], &answers[nhdr + k]);
+            let step = pd.step;
+            let mut add = |kind: &'static str, sub: String, expected: String, observed: String| {
+                dis.push(Dis { kind, sub, step, expected, observed });
+            };
+            let Some((m, s)) = ans.split_once(" || ") else {
+                return Err(format!("lean driver answered `{ans}` to `{line}`"));
+            };
+            let (mhead, mpool) = m.split_once(" |").unwrap_or((m, ""));
+            let mut mret = "";
+            let mut mev = "";
+            for t in mhead.split_whitespace() {
+                if let Some(r) = t.strip_prefix("ret=") {
+                    mret = r;
+                }
+                if let Some(r) = t.strip_prefix("ev=") {
+                    mev = r;
+                }
+            }
+            if mret != pd.ret {
+                add("impl-vs-model", "ret".into(), format!("ret={mret}"), format!("ret={}", pd.ret));
+            }
+            if mev != pd.ev_s {
+                add("impl-vs-model", "ev".into(), format!("ev={mev} (alloc-inner,free-inner,alloc-buf,free-buf,grow-buf)"), format!("ev={}", pd.ev_s));
+            }
+            let mut mh: Vec<(usize, Vec<String>)> = vec![];
+            for t in mpool.split_whitespace() {
+                let Some((name, rest)) = t.split_once('=') else { continue };
+                let idx: usize = name.trim_start_matches('h').parse().map_err(|_| format!("bad handle in `{ans}`"))?;
+                let mut f: Vec<String> = rest.split(',').map(str::to_string).collect();
+                if f.len() != 10 {
+                    return Err(format!("bad handle fields in `{ans}`"));
+                }
+                f.pop(); // taint: model only
+                if f[6].starts_with('b') {
+                    f[6] = canon(&mut self.model_blk, &f[6].clone());
+                }
+                mh.push((idx, f));
+            }
+            for i in 0..SLOTS {
+                let a = mh.iter().find(|(k, _)| *k == i).map(|x| &x.1);
+                let b = pd.obs.iter().find(|(k, _)| *k == i).map(|x| &x.1);
+                match (a, b) {
+                    (Some(a), Some(b)) => {
+                        if let Some(k) = (0..9).find(|&k| a[k] != b[k]) {
+                            add("impl-vs-model", format!("obs:{}", FIELD_NAMES[k]), format!("h{i}={}", a.join(",")), format!("h{i}={}", b.join(",")));
+                        }
+                    }
+                    (None, None) => {}
+                    (a, b) => add("impl-vs-model", "obs:liveness".into(), format!("h{i} live={}", a.is_some()), format!("h{i} live={}", b.is_some())),
+                }
+            }
+            // spec vs std
+            let (shead, spool) = s.split_once(" |").unwrap_or((s, ""));
+            let sret = shead.split_whitespace().find_map(|t| t.strip_prefix("ret=")).unwrap_or("");
+            if !pd.exp.matches(sret) {
+                add("spec-vs-std", "ret".into(), pd.exp.show(), sret.to_string());
+            }
+            let mut sp: Vec<Option<String>> = vec![None; SLOTS];
+            for t in spool.split_whitespace() {
+                if let Some((name, v)) = t.split_once('=') {
+                    if let Ok(i) = name.trim_start_matches('p').parse::<usize>() {
+                        if i < SLOTS {
+                            sp[i] = Some(v.to_string());
+                        }
+                    }
+                }
+            }
+            for i in 0..SLOTS {
+                if pd.oracle[i] != sp[i] {
+                    add(
+                        "spec-vs-std",
+                        "content".into(),
+                        format!("p{i}={}", pd.oracle[i].clone().unwrap_or("none".into())),
+                        format!("p{i}={}", sp[i].clone().unwrap_or("none".into())),
+                    );
+                }
+            }
+            if !dis.is_empty() {
+                break;
+            }
+        }
+        dis.sort_by_key(|d| (d.step, rank(d.kind)));
+        Ok(dis.into_iter().next())
+    }
+
+    /// End of the sequence: compare with the model, drop every handle, then allocator balance /
+    /// red zones / poison.  `local` = a disagreement already found on the implementation side.
+    fn finish(mut self, local: Option<Dis>) -> Result<Option<Dis>, String> {
         alloc::set_mode(alloc::OFF);
+        let model = self.flush();
         let step = self.step_no;
         for s in self.pool.iter_mut() {
             *s = None;
@@ -2047,7 +2135,15 @@ impl<'l, T: Subject> Session<'l, T> {
         let mut v = alloc::take_violations();
         alloc::end_sequence();
         v.extend(alloc::take_violations());
-        v.into_iter().next().map(|(k, serial, size)| {
+        let model = model?;
+        let first = match (local, model) {
+            (Some(a), Some(b)) => Some(if (b.step, rank(b.kind)) < (a.step, rank(a.kind)) { b } else { a }),
+            (a, b) => a.or(b),
+        };
+        if first.is_some() {
+            return Ok(first);
+        }
+        Ok(v.into_iter().next().map(|(k, serial, size)| {
             let (sz, al) = (size & 0xffff_ffff_ffff, size >> 48);
             Dis {
                 kind: "monitor",
@@ -2060,7 +2156,17 @@ impl<'l, T: Subject> Session<'l, T> {
                     if k == alloc::V_LEAK { format!(" (align {al}: {})", if al >= 8 { "owner box" } else { "byte buffer" }) } else { String::new() }
                 ),
             }
-        })
+        }))
+    }
+}
+
+/// priority: monitor > impl-vs-oracle > impl-vs-model > spec-vs-std
+fn rank(k: &str) -> u8 {
+    match k {
+        "monitor" => 0,
+        "impl-vs-oracle" => 1,
+        "impl-vs-model" => 2,
+        _ => 3,
     }
 }
 
@@ -2118,8 +2224,13 @@ fn run_ops<T: Subject>(hdr: &Hdr, ops: &[Op], lean: Option<&mut LeanDriver>) -> 
         }
     }
     let applied = s.applied.clone();
-    let end = s.finish();
-    Ok(RunOut { dis: dis.or(end), applied, infos })
+    let dis = s.finish(dis)?;
+    // keep only what was applied up to the failing step
+    let applied = match &dis {
+        Some(d) => applied.into_iter().take(d.step + 1).collect(),
+        None => applied,
+    };
+    Ok(RunOut { dis, applied, infos })
 }
 
 fn shorter_payloads(op: &Op, text: bool) -> Vec<Op> {
@@ -2517,8 +2628,7 @@ fn random_sequence<T: Subject>(rng: &mut Rng, backend: &str, st: &mut Stats, lea
                 }
             }
         }
-        let end = s.finish();
-        found = found.or(end);
+        found = s.finish(found)?;
     }
     st.sequences += 1;
     if let Some(d) = found {
@@ -2635,8 +2745,7 @@ fn exhaustive<T: Subject>(backend: &str, ceil: u64, depth: usize, st: &mut Stats
                 alpha = alphabet::<T>(&s, 0);
                 alpha.extend(alphabet::<T>(&s, 1));
             }
-            let end = s.finish();
-            (alpha, dis.or(end))
+            (alpha, s.finish(dis)?)
         };
         *count += 1;
         st.sequences += 1;
@@ -2819,7 +2928,7 @@ fn main() {
     let started = std::time::Instant::now();
     let mut st = Stats::default();
     let mut lean = match &cli.lean {
-        Some(p) => match LeanDriver::spawn(p, &[]) {
+        Some(p) => match LeanDriver::spawn(p) {
             Ok(l) => Some(l),
             Err(e) => {
                 eprintln!("cannot start lean driver {p}: {e}");
